@@ -20,6 +20,8 @@
    [lookup c x] = the wakers registered for waiter [x]. *)
 From Compio.Model Require Import Base QuicWakers.
 From Compio.Thm Require Import QuicWakersThm.
+From Compio.Gen Require Frag.
+From Compio.Thm Require FragMiscThm.
 
 (* ---------------------------------------------------------------------- *)
 (* C16_terminate_wakes_all: the step that terminates the connection — close()
@@ -157,3 +159,25 @@ Example C16_nonvacuous_hypotheses :
   disturbs (LEvent (QReadable 8)) (WRead 4) = false /\ same_slot (WRead 4) (WRead 8) = false.
 Proof. vm_compute. repeat split; reflexivity. Qed.
 Print Assumptions C16_nonvacuous_hypotheses.
+
+(* ---- source tie (translated from the Rust source on every run by tools/rs2v.py
+        into gen/Frag.v; an edit of the function changes the generated definition) ---- *)
+(* RecvStream::read_to_end (compio-quic/src/recv_stream.rs): the two running bounds the loop keeps
+   over the chunks it is handed IN WHATEVER ORDER (`start = start.min(chunk.offset)`,
+   `end = end.max(chunk.offset + len)`) and the place a chunk is copied to (`offset - start`), as
+   the source has them now, are the model's rte_min / rte_max / read_to_end_assemble - the
+   functions C16_read_to_end_exact is about *)
+Theorem C16_read_to_end_bounds_are_source : forall (cs : list chunk) (m : nat),
+  rte_min cs m = fold_left (fun a c => Frag.rte_start_step a (fst c)) cs m
+  /\ rte_max cs m = fold_left (fun a c => Frag.rte_end_step a (fst c) (length (snd c))) cs m.
+Proof. exact FragMiscThm.rte_tie. Qed.
+Print Assumptions C16_read_to_end_bounds_are_source.
+
+Theorem C16_read_to_end_placement_is_source : forall cs,
+  read_to_end_assemble cs =
+    let s := rte_start cs in
+    let e := rte_end cs in
+    if Nat.leb e s then [] else
+    fold_left (fun buf c => write_at buf (Frag.rte_place (fst c) s) (snd c)) cs (repeat_b 0%N (e - s)).
+Proof. exact FragMiscThm.rte_assemble_tie. Qed.
+Print Assumptions C16_read_to_end_placement_is_source.
